@@ -624,6 +624,10 @@ func (ll *LocationList) Push(loc Location, force bool) {
 	if joined, ok := loc.(Joined); ok {
 		for i := range joined {
 			ll.Push(joined[i], force)
+			// Stay at the end of the list instead of walking it for every part.
+			for ll.Next != nil {
+				ll = ll.Next
+			}
 		}
 		return
 	}
